@@ -33,7 +33,9 @@ TRUSTED_BASE = [
     "extraction: ExtrOcamlBasic + ExtrOcamlZBigInt directives only (bool/option/unit/list/prod/sumbool/sumor to OCaml types; "
     "positive/Z/N to zarith Big_int_Z with the arithmetic/comparison/div/shift constants of ExtrOcamlZBigInt.v) plus Extract Constant Z.gcd => Big_int_Z.gcd_big_int; ocamlfind ocamlopt 4.13.1, zarith 1.12",
     "correspondence machinery: Python case generator/comparator (tools/), Rust harness (harness/), OCaml line driver (ocaml/runner.ml)",
-    "hand-written model tied to /repo by differential runs on generated inputs; not a translation of the Rust source",
+    "hand-written model tied to /repo by differential runs on generated inputs; the only translated parts are the exact predicate (tools/translate_insphere.py: "
+    "symbolic execution of in_sphere_test_exact and its macros into Gallina, proved equal to the model in C10_gen.v on every C10 run) and the rayon pipelines (C09_gen.v)",
+    "exact rational re-derivation of clip decisions in Python (tools/decisions.py, C05) and the exact grid replication for the kNN model (C20)",
     "rustc/cargo, glam, rstar, rayon, big-integer crates as used by /repo",
 ]
 
